@@ -6,8 +6,12 @@ From TT Require Import Lib.Base Gen.Handlers Model.Run Spec.Run.
 (* i_prev: what the SAME TestCase instance did in its earlier runs, oldest first (a runner that runs a
    case again after an interrupted attempt, an --until-failure loop, an interactive session): the
    stages are scripted per run.  The observation is that of the last run, the one of i_prog; the
-   statement speaks about every single run, whatever the instance went through before. *)
-Record input := { i_prev : list prog; i_prog : prog; i_flavour : flavour }.
+   statement speaks about every single run, whatever the instance went through before.
+   i_runner: the configuration - which RunTest factory the case runs its tests with and how it was
+   installed (Model.Run.runner: run_tests_with, runTest=, @run_test_with; RunTest itself, subclasses and
+   functions with explicit / star / keyword-only signatures, functools.partial, callable objects, factories
+   written for the API before last_resort).  The statement does not mention it: it is to hold for all. *)
+Record input := { i_prev : list prog; i_prog : prog; i_flavour : flavour; i_runner : runner }.
 
 (* what the result object saw: calls of startTest / an outcome method / stopTest, in order *)
 Inductive ev := Start | Out (o : outcome) | Stop.
@@ -96,5 +100,6 @@ Definition Spec (i : input) (o : obs) : Prop :=
                   out = deliver (i_flavour i) OErr /\ o_raised o = kind_of e
                   /\ forall t, In t (expected_tokens (i_prog i)) -> In t (o_ran o)).
 
-(* no known finding is delimited for C01 (F1 and F3 are repaired in /repo) *)
+(* no known finding is delimited for C01 (F1, F3 and F27 - a RunTest built by a factory that cannot be called
+   with last_resort= reported no outcome for KeyboardInterrupt / SystemExit - are repaired in /repo) *)
 Definition findings (i : input) : list nat := [].
